@@ -41,6 +41,23 @@ def s_topack_nofsync(d): return base(d, target=100), (lambda c: c.add_objects_to
 def s_pack_novalidate(d): return base(d, target=100), (lambda c: c.pack_all_loose(validate_objects=False)), set()
 
 
+def s_pending_pack_clean(d):
+    """index rows still PENDING in the handle's session (do_commit=False) for content that is also loose, then pack_all_loose with per-pack
+    cleaning through the same handle: whatever the packer's queries see of the uncommitted rows, a kill must not cost a loose object"""
+    def op(c):
+        c.add_objects_to_pack([A[2], NEW[0]], do_commit=False)
+        c.pack_all_loose(clean_loose_per_pack=True)
+    return base(d), op, set()
+
+
+def s_pending_all_pack_clean(d):
+    """the same with EVERY loose object covered by a pending row: the packer has nothing to pack (and may never commit)"""
+    def op(c):
+        c.add_objects_to_pack(A[2:], do_commit=False)
+        c.pack_all_loose(clean_loose_per_pack=True)
+    return base(d), op, set()
+
+
 def s_clean(d):
     t = base(d)
     c = Container(d); c.pack_all_loose(); c.close()
@@ -299,7 +316,7 @@ class _NonDefaultFsync(set):
 
 
 SCEN = _Scen({k[2:]: v for k, v in list(globals().items()) if k.startswith('s_')})
-QUICK = ['add', 'add_dup', 'loosen', 'topack_many', 'pack', 'pack_small', 'pack_nofsync_clean', 'pack_then_clean', 'topack_nh_rt0', 'topack_nofsync', 'delete', 'repack', 'import_diff', 'import_same_stream', 'clean']
+QUICK = ['add', 'add_dup', 'loosen', 'topack_many', 'pack', 'pack_small', 'pending_pack_clean', 'pending_all_pack_clean', 'pack_nofsync_clean', 'pack_then_clean', 'topack_nh_rt0', 'topack_nofsync', 'delete', 'repack', 'import_diff', 'import_same_stream', 'clean']
 # scenarios that switch the fsync defaults off are outside C06 ("with the default fsync settings")
 NON_DEFAULT_FSYNC = _NonDefaultFsync({'pack_nofsync', 'pack_nofsync_clean', 'topack_nofsync'})
 # scenarios that keep the default fsync settings and start from an undamaged state (C06)
